@@ -516,8 +516,18 @@ impl Renderer {
             } else if i + 1 < lines.len() {
                 let sep = self.sep();
                 s.push_str(&sep);
-            } else if self.coin() {
-                s.push('\n');
+            } else {
+                // end of input: nothing, the terminating newline, or further
+                // lines holding only blanks / comments (XCU 2.3 rule 7 and
+                // 2.10.2: they are no commands, so `$?` and the final exit
+                // status stay those of the last command executed)
+                match self.pick(8) {
+                    0 | 1 => {}
+                    2 | 3 | 4 => s.push('\n'),
+                    5 => s.push_str("\n\n"),
+                    6 => s.push_str("\n  # the end\n"),
+                    _ => s.push_str(" # c\n \t\n#"),
+                }
             }
         }
         let via_stdin = self.rare();
